@@ -165,5 +165,8 @@ fixed("C08", "46079e1", ["c08:framing-accepted:non-hex-chunk-size"] + ["c08:e2e:
 fixed("C15", "0f8198b", ["c15:control-send:over-125-not-refused:write-frame"],
       "Conn.WriteFrame(Ping|Pong|Close, ..., 126+ bytes) writes the oversized control frame (WriteMessage refuses it); control-send cases via WriteFrame")
 
+fixed("C16", "3d2765e", ["c16:write:never-fired", "c16:established-connection-closed-with-dial-timeout"],
+      "DialAsyncTimeout arms its timer after the connection was handed to the poller: when the connect completes first, the timer is armed on the established connection after the callback ran - it re-arms the write deadline the callback set (fires an hour late) or stays behind and later closes the connection with the dial timeout error (dialed histories with a dial timeout; 2 of 3 quick seeds)")
+
 json.dump(F, open("/verif/known_findings.json", "w"), indent=1)
 print("wrote %d entries (%d known)" % (len(F), sum(1 for f in F if f["status"] == "known")))
